@@ -90,6 +90,45 @@ def f17(case):
         v >= 2 ** 50 for v in case["data"])
 
 
+def pad_sequence(shape, factors):
+    """(axis, intermediate shape after completing that axis to a multiple of
+    its factor) for the z, y, x stages of a block reduction of `shape`
+    (C, Z, Y, X) by `factors` (x, y, z)."""
+    cur = list(shape)
+    out = []
+    for axis, f in ((1, factors[2]), (2, factors[1]), (3, factors[0])):
+        if f > 1:
+            if cur[axis] % f:
+                cur[axis] += f - cur[axis] % f
+                out.append((axis, tuple(cur)))
+            cur[axis] //= f
+    return out
+
+
+def colliding_shapes(shape, factors, limit=2):
+    """Other chunk shapes whose reduction passes through one of this chunk's
+    intermediate shapes while completing a DIFFERENT axis (border chunks of
+    one volume do that to each other)."""
+    mine = pad_sequence(shape, factors)
+    if not mine:
+        return []
+    found = []
+    top = [min(2 * n + 2, 12) for n in shape[1:]]
+    for z in range(1, top[0] + 1):
+        for y in range(1, top[1] + 1):
+            for x in range(1, top[2] + 1):
+                w = (shape[0], z, y, x)
+                if w == tuple(shape):
+                    continue
+                for axis, inter in pad_sequence(w, factors):
+                    if any(inter == p and axis != a for a, p in mine):
+                        found.append(w)
+                        break
+                if len(found) >= limit:
+                    return found
+    return found
+
+
 def check_case(ctx, case):
     if f17(case) and ctx.known("F17c"):
         return None
@@ -104,6 +143,19 @@ def check_case(ctx, case):
             # a downscaler object serves every chunk of a pyramid: use it on
             # another array (other shape and dtype) first
             ds.downscale(np.ones((1, 3, 2, 5), dtype="uint16"), factors)
+            if arr.size <= 512:
+                # ... and on the same values with the axes permuted (chunks of
+                # one volume that differ in which axis is odd)
+                for perm in ((0, 1, 3, 2), (0, 3, 2, 1), (0, 2, 1, 3)):
+                    ds.downscale(np.ascontiguousarray(arr.transpose(perm)),
+                                 factors)
+                # ... and on chunks of other shapes whose reduction passes
+                # through the same intermediate shapes along another axis
+                for w in colliding_shapes(arr.shape, factors):
+                    fill = np.resize(arr.reshape(-1)[::-1], w).astype(
+                        arr.dtype)
+                    ds.downscale(fill, factors)
+                    ctx.count("colliding_shape_warmups")
             out = ds.downscale(dsets.laid_out(arr, case.get("layout", "c")),
                                factors)
     except Exception as exc:
